@@ -344,6 +344,68 @@ def shared_mutable_constants(index: RepoIndex, rep, rule: str) -> None:
               f'package classes checked')
 
 
+def registry_write_once(index: RepoIndex, rep, rule: str) -> None:
+    """the function registries are looked up by name at every call of a shipped component
+    (`visibility_function_registry['raytracing']`), so a name that is bound is never bound
+    again: in FunctionRegistry every store of an entry happens only when the name is absent
+    (ValueError otherwise), and no other method or function of the package stores, deletes or
+    updates entries"""
+    from ..guards import (MUTATORS, parse_guard, prop_implies, show, strip_iter)
+    rel = 'gym_gridverse/utils/registry.py'
+    cls = index.cls(rel, 'FunctionRegistry')
+    n = 0
+    for mname, m in sorted(cls.methods.items()):
+        w = walk_function(m.node)
+        me = m.node.args.args[0].arg if m.node.args.args else 'self'
+        for e in w.events:
+            tgt = None
+            if e.kind in ('store', 'augstore', 'delete'):
+                tgt = e.target
+            elif e.kind == 'call' and isinstance(e.node.func, ast.Attribute) and \
+                    e.node.func.attr in MUTATORS | {'__setitem__', '__delitem__'} and \
+                    src(e.node.func.value) in (me, f'{me}.data'):
+                rep.violation(rule, rel, m.short, e.line, src(e.node)[:100],
+                              f'{m.short} updates the registry in place (`{src(e.node)[:60]}`): '
+                              f'a registered name can come to denote another function')
+                n += 1
+                continue
+            if not (isinstance(tgt, ast.Subscript) and src(tgt.value) in (me, f'{me}.data')):
+                continue
+            n += 1
+            key = src(tgt.slice)
+            g = w.expand_formula(strip_iter(e.guard), stop=[key])
+            absent = [parse_guard(f'{key} not in {me}.data'), parse_guard(f'{key} not in {me}')]
+            ok = e.kind == 'store' and any(prop_implies(g, a) is None for a in absent)
+            rep.check(ok, rule, rel, m.short, e.line, src(e.stmt)[:100],
+                      f'{m.short} stores `{src(tgt)}` without the name being absent on every '
+                      f'path (guard: `{show(strip_iter(e.guard))[:120]}`): registering again '
+                      f'replaces a function that environments which already exist look up by '
+                      f'name at every call', f'{m.short}: entries written once')
+    if n == 0:
+        raise AnalysisError('FunctionRegistry: no store of an entry found (outside the grammar)')
+    # nobody else writes an entry
+    for mod in index.modules.values():
+        if not mod.relpath.startswith('gym_gridverse/') or mod.relpath == rel:
+            continue
+        for x in ast.walk(mod.tree):
+            t = None
+            if isinstance(x, (ast.Assign, ast.AugAssign, ast.Delete)):
+                ts = x.targets if isinstance(x, (ast.Assign, ast.Delete)) else [x.target]
+                for t_ in ts:
+                    if isinstance(t_, ast.Subscript) and \
+                            src(t_.value).split('.')[-1].endswith('_function_registry'):
+                        t = t_
+            if isinstance(x, ast.Call) and isinstance(x.func, ast.Attribute) and \
+                    x.func.attr in (MUTATORS - {'register'}) | {'__setitem__'} and \
+                    src(x.func.value).split('.')[-1].endswith('_function_registry'):
+                t = x
+            if t is not None:
+                rep.violation(rule, mod.relpath, '<module>', x.lineno, src(x)[:100],
+                              f'`{src(x)[:80]}` writes a function registry directly: a '
+                              f'registered name can come to denote another function')
+    rep.holds(rule, 'registry entries written only by register', f'{n} store(s)')
+
+
 def one_object_per_cell(index: RepoIndex, rep, rule: str) -> None:
     """every place that fills grid cells from an object factory calls the factory once per cell:
     `Grid.from_shape` builds rows and cells by two nested comprehensions with the call in the
@@ -586,6 +648,10 @@ def run(index: RepoIndex, rep) -> None:
 
     one_object_per_cell(index, rep, 'C03.R8')
     shared_mutable_constants(index, rep, 'C03.R8')
+    rep.rule('C03.R10', 'registered component names are bound once: what an existing '
+             'environment looks up by name cannot change when another environment registers '
+             'its own functions', floor=2)
+    registry_write_once(index, rep, 'C03.R10')
     shared_class_attributes(index, rep, 'C03.R8')
     # a composite keeps its parts between calls: they are a list, not an iterator a call consumes
     rep.rule('C03.R9', 'what a configured composite keeps between calls is not consumed by a '
